@@ -204,6 +204,13 @@ def property_checks(seed, deep):
     out.append(("batch = per item: binImgs", float(numpy.abs(itp.binImgs(st.copy(), 2) - numpy.array([itp.binImgs(q.copy(), 2) for q in st])).max()), 0.0))
     out.append(("batch = per item: centre_of_gravity", float(numpy.abs(cen.centre_of_gravity(st.copy()) - numpy.array([cen.centre_of_gravity(q.copy()) for q in st]).T).max()), 1e-12))
     out.append(("batch = per item: brightest_pixel", float(numpy.abs(cen.brightest_pixel(st.copy(), 0.3) - numpy.array([cen.brightest_pixel(q.copy(), 0.3) for q in st]).T).max()), 1e-12))
+    refim = numpy.abs(g.normal(size=(6, 6))) + 0.1
+    for thr_, pad_ in ((0.0, 1), (0.3, 1), (0.5, 2)):
+        out.append(("batch = per item: correlation_centroid (threshold %g, padding %d)" % (thr_, pad_),
+                    float(numpy.abs(cen.correlation_centroid(st.copy(), refim.copy(), threshold=thr_, padding=pad_)
+                                    - numpy.array([cen.correlation_centroid(q.copy(), refim.copy(), threshold=thr_, padding=pad_)[:, 0] for q in st]).T).max()), 1e-12))
+    cc_ = numpy.array([cen.cross_correlate(q.copy(), refim.copy(), padding=2) for q in st])
+    out.append(("cross_correlate of each frame does not depend on the other frames", float(numpy.abs(cc_[1] - cen.cross_correlate(st[1].copy(), refim.copy(), padding=2)).max()), 0.0))
     sl = g.normal(size=(2, 3, 16, 4))
     mt, me = tp.calc_slope_temporalps(sl.copy())
     per = numpy.array([[tp.calc_slope_temporalps(sl[i, j].copy())[0] for j in range(3)] for i in range(2)])
